@@ -233,6 +233,7 @@ func c11Items(seed int64, tier string) []*c11Item {
 		if msg, err := message.Build(invs, nil); err == nil {
 			if req, err := request.Encode(msg); err == nil {
 				body, _ := io.ReadAll(req.Body())
+				c11RawBase = body // gen_bytes.go describes the raw items as mutations of it
 				for i := 0; i < nraw; i++ {
 					mb := append([]byte{}, body...)
 					switch r.Intn(6) {
@@ -265,6 +266,8 @@ func c11Items(seed int64, tier string) []*c11Item {
 	}
 	return items
 }
+
+var c11RawBase []byte
 
 // child: execute items [from, to) one by one
 func c11Child(args []string) int {
@@ -315,6 +318,8 @@ func c11Child(args []string) int {
 				rawSrv, _ = b.newServer(&BatchObs{})
 			}
 			status, errs := 0, ""
+			// the body as THIS process built it (token blocks carry wall-clock fields, so the parent's copy may differ)
+			bytesC11Keep(out, tier, items, i)
 			res, err := rawSrv.Request(thttp.NewHTTPRequest(bytes.NewReader(it.Raw), it.Hdr))
 			if err != nil {
 				errs = "error"
@@ -446,6 +451,28 @@ func init() {
 		}
 		if err := writeBatchCases(o.out, "cases_C11", cases, 16); err != nil {
 			return err
+		}
+		// byte-level model of request.Decode (gen_bytes.go): the status of every raw request is 400 exactly
+		// when the model says its body is not a decodable agent message
+		{
+			var raws [][]byte
+			var lines []string
+			for i, it := range items {
+				if it.Kind == "raw" {
+					if l, ok := done[i]; ok {
+						// the bytes the child sent (written by bytesC11Keep), not this process's copy
+						f := filepath.Join(o.out, fmt.Sprintf("raw_%06d.bin", i))
+						if b, err := os.ReadFile(f); err == nil {
+							raws = append(raws, b)
+							lines = append(lines, l)
+							os.Remove(f)
+						}
+					}
+				}
+			}
+			if err := bytesC11(o, raws, lines); err != nil {
+				return err
+			}
 		}
 		if err := writeJSON(o.out, "labels.json", labels); err != nil {
 			return err
